@@ -125,7 +125,15 @@ func tcpSocket(proto, addr string, passive bool, sockOptInts []Option[int], sock
 			return
 		}
 		// Set backlog size to the maximum.
-		err = os.NewSyscallError("listen", unix.Listen(fd, listenerBacklogMaxSize))
+		if err = os.NewSyscallError("listen", unix.Listen(fd, listenerBacklogMaxSize)); err != nil {
+			return
+		}
+		// Report the port picked by the kernel when asked to listen on port 0.
+		if tcpAddr, ok := netAddr.(*net.TCPAddr); ok && tcpAddr.Port == 0 {
+			if port, ok := boundPort(fd); ok {
+				tcpAddr.Port = port
+			}
+		}
 	} else {
 		err = os.NewSyscallError("connect", unix.Connect(fd, sa))
 	}
